@@ -423,6 +423,9 @@ fn worker(prop: &props::PropDef, args: &Args) -> i32 {
     }
     (prop.run)(&r);
     finished.store(true, std::sync::atomic::Ordering::Relaxed);
+    if args.tier == Tier::Thorough && !r.stopped() && !cfg!(debug_assertions) && std::env::var("VERIF_NO_FUZZ").as_deref() != Ok("1") {
+        fuzz_phase(prop, &r);
+    }
     let _ = std::panic::take_hook();
 
     let check = |ctx: &mut real::Ctx, l: &mut vlib::engine::Local, rec: &CaseRec| (prop.check)(&r, ctx, l, rec);
@@ -464,6 +467,127 @@ fn worker(prop: &props::PropDef, args: &Args) -> i32 {
     } else {
         0
     }
+}
+
+/// Thorough tier: a coverage-guided libFuzzer campaign (ASan, debug assertions) on the
+/// target that exercises this property; the oracle is inside the target.
+fn fuzz_phase(prop: &props::PropDef, r: &Runner) {
+    let target = match vlib::fuzzdec::target_of(prop.id) {
+        Some(t) => t,
+        None => return,
+    };
+    let t0 = Instant::now();
+    let fuzzdir = format!("{}/fuzz", vlib::verif_dir());
+    let out = Command::new("cargo")
+        .current_dir(&fuzzdir)
+        .args(["+nightly", "fuzz", "build", "--fuzz-dir", &fuzzdir, target])
+        .env("RUSTFLAGS", "--cfg httparse_verif")
+        .env("CARGO_NET_OFFLINE", "true")
+        .output();
+    match out {
+        Ok(o) if o.status.success() => {}
+        Ok(o) => {
+            r.inconclusive.lock().unwrap().push(format!("fuzz target {} does not build: {}", target, String::from_utf8_lossy(&o.stderr).lines().filter(|l| l.starts_with("error")).take(3).collect::<Vec<_>>().join(" | ")));
+            return;
+        }
+        Err(e) => {
+            r.inconclusive.lock().unwrap().push(format!("cannot run cargo fuzz: {}", e));
+            return;
+        }
+    }
+    let bin = format!("{}/target/x86_64-unknown-linux-gnu/release/{}", fuzzdir, target);
+    let jobs = 8usize;
+    let runs = vlib::engine::env_u64("VERIF_FUZZ_RUNS", if target == "fz_stream" { 40_000 } else { 400_000 });
+    let _ = std::fs::create_dir_all(format!("{}/artifacts", fuzzdir));
+    let mut children = vec![];
+    for j in 0..jobs {
+        let work = format!("{}/work/{}-{}", fuzzdir, prop.id, j);
+        let _ = std::fs::remove_dir_all(&work);
+        let _ = std::fs::create_dir_all(&work);
+        // half of the jobs start from the committed seeds, half from an empty corpus
+        if j % 2 == 0 {
+            if let Ok(rd) = std::fs::read_dir(format!("{}/corpus/{}", vlib::verif_dir(), target)) {
+                for e in rd.flatten() {
+                    let _ = std::fs::copy(e.path(), format!("{}/{}", work, e.file_name().to_string_lossy()));
+                }
+            }
+        }
+        let child = Command::new(&bin)
+            .arg(&work)
+            .arg(format!("-runs={}", runs))
+            .arg(format!("-seed={}", r.seed.wrapping_mul(1000).wrapping_add(j as u64 + 1) & 0x7fff_ffff))
+            .args(["-max_len=220", "-len_control=0", "-print_final_stats=1"])
+            .arg(format!("-artifact_prefix={}/artifacts/{}-{}-", fuzzdir, prop.id, j))
+            .env("VERIF_FUZZ_PROP", prop.id)
+            .stdout(Stdio::null())
+            .stderr(match std::fs::File::create(format!("{}.log", work)) {
+                Ok(f) => Stdio::from(f),
+                Err(_) => Stdio::null(),
+            })
+            .spawn();
+        if let Ok(c) = child {
+            children.push((j, work, c));
+        }
+    }
+    let mut total_runs = 0u64;
+    let mut cov = 0u64;
+    for (j, work, mut c) in children {
+        let status = match c.wait() {
+            Ok(s) => s,
+            Err(_) => continue,
+        };
+        let err = std::fs::read(format!("{}.log", work)).map(|b| String::from_utf8_lossy(&b).to_string()).unwrap_or_default();
+        let _ = std::fs::remove_file(format!("{}.log", work));
+        for line in err.lines() {
+            if let Some(x) = line.strip_prefix("stat::number_of_executed_units:") {
+                total_runs += x.trim().parse::<u64>().unwrap_or(0);
+            }
+            if line.contains(" cov: ") {
+                if let Some(v) = line.split(" cov: ").nth(1).and_then(|s| s.split_whitespace().next()).and_then(|s| s.parse::<u64>().ok()) {
+                    cov = cov.max(v);
+                }
+            }
+        }
+        if !status.success() {
+            // a crash: find the artifact
+            let art = err.lines().find_map(|l| l.split("Test unit written to ").nth(1)).map(|s| s.trim().to_string());
+            let what = err.lines().find(|l| l.contains("VIOLATION property=") || l.contains("ERROR: AddressSanitizer") || l.contains("panicked at")).unwrap_or("crash").to_string();
+            match art.and_then(|a| std::fs::read(&a).ok()) {
+                Some(data) => {
+                    let cases = vlib::fuzzdec::decode(target, &data);
+                    let mut reported = false;
+                    let mut ctx = real::Ctx::new(prop.max_buf, 1024);
+                    let mut l = vlib::engine::Local::default();
+                    for (id, rec) in cases {
+                        if id != prop.id {
+                            continue;
+                        }
+                        match (prop.check)(r, &mut ctx, &mut l, &rec) {
+                            Err(v) => {
+                                r.report(v);
+                                reported = true;
+                            }
+                            Ok(()) => {
+                                if what.contains("AddressSanitizer") && prop.id == "C01" {
+                                    r.report(Violation::new("C01/asan", format!("AddressSanitizer report in the fuzz build: {}", what), &rec));
+                                    reported = true;
+                                }
+                            }
+                        }
+                    }
+                    if !reported {
+                        r.inconclusive.lock().unwrap().push(format!("fuzz job {} of {} stopped ({}) but the saved input does not violate {} when replayed through the check", j, target, what, prop.id));
+                    }
+                }
+                None => r.inconclusive.lock().unwrap().push(format!("fuzz job {} of {} failed without an artifact: {}", j, target, what)),
+            }
+        }
+        let _ = std::fs::remove_dir_all(&work);
+    }
+    r.stats.evals.fetch_add(total_runs, std::sync::atomic::Ordering::Relaxed);
+    r.stats.hist.lock().unwrap().insert(format!("libFuzzer executions ({}; ASan + debug assertions; oracle inside the target)", target), total_runs);
+    r.stats.hist.lock().unwrap().insert(format!("libFuzzer edge coverage reached ({})", target), cov);
+    r.phase_done(&format!("coverage-guided libFuzzer campaign on {}: {} jobs × {} runs (half from the committed seed corpus, half from an empty one), restricted to {}", target, jobs, runs, prop.id), total_runs, false, t0);
 }
 
 fn write_evidence(prop: &props::PropDef, r: &Runner, args: &Args, t0: Instant, nviol: usize) {
